@@ -631,6 +631,8 @@ def _scenario(rng, want_uproc):
     if want_uproc:
         nu = rng.choice((1, 1, 2))
     uouts = [new_sig() for _ in range(nu)]
+    for u in uouts:
+        sigs[u][3] = False      # the replacement process resets its output like a resettable register
     combs = [new_sig() for _ in range(rng.randrange(0, 4))]
     shapes = [[w, sg] for (w, sg, _, _) in sigs]
     nm = rng.randrange(1, 5)
@@ -762,7 +764,7 @@ def gen_cases(tier, seed):
                     cases.append(_clock_case(period, phase, "neg" if n % 3 == 0 else "pos", style, n % 2 == 0, n))
     for _ in range(400 if thorough else 60):
         cases.append(_delay_case(rng))
-    for i in range(3000 if thorough else 420):
+    for i in range(3000 if thorough else 320):
         cases.append(_scenario(rng, want_uproc=(i % 3 == 0)))
     for c in cases:
         c["korders"] = k
